@@ -1,13 +1,17 @@
 """C01 - Die decomposition is an exact tiling of the die (frame/die/die.py, yaml_parse_die.py, gather_boundaries)."""
 from fractions import Fraction as F
+import io
+import os
+import random as _random
 import re
+import tempfile
 import traceback
 
 from harness import core, fr
 from harness.core import gq, gstr, glist
 
 HEADER = """From FrameModel Require Import Num.QcTac Geometry.Rect Cases.Cmp Cases.CmpC01
-  Die.Boundaries Die.Cells Die.Cover Die.DieModel.
+  Die.Boundaries Die.Cells Die.Cover Die.DieModel Die.DieInput.
 Open Scope Qc_scope."""
 
 ASSUMPTIONS = [
@@ -21,10 +25,21 @@ ASSUMPTIONS = [
     "explored by the decimal stream with the direct oracle (tolerance 1e-9*max(W,H) on coordinates, 1e-9*W*H on the area sum)",
     "YAML scalars other than numbers/strings/lists (booleans, nan, inf) are not generated",
     "_check_rectangles is modelled after fixes/C01-inside-die-tolerance.diff and fixes/C01-area-sum-tolerance.diff",
+    "input forms: dict, flat single-region dict, '<W>x<H>' string (float() grammar modelled on ASCII: white space, sign, point, "
+    "exponent, underscores between digits, inf/nan), YAML text, file name, open stream (file object / io.StringIO), each with and "
+    "without a netlist; the model gets the very string handed to Die; the YAML loader and the file system are Section variables of "
+    "the model, instantiated per case with the file the harness wrote and with the tree the generated text was rendered from (number "
+    "spellings restricted to those ruamel's safe loader reads as the same number: int, point, exponent, sign, '_' between digits)",
+    "read_yaml is modelled as repaired by fixes/C19-read-yaml-stream.diff (the original isinstance(stream, typing.TextIO) refused every "
+    "real stream: C01/valid-rejected-stream) and fixes/C19-read-yaml-text.diff (a str with a line break is a YAML text even without ': ')",
+    "non-ASCII digits / spaces in the string form and exponents beyond binary64 range are not generated",
 ]
 
-TAGS = ["#", "#", "#", "BRAM", "DSP", "reg1", "_x", "a_9", "Z"]
-BAD_TAGS = ["_", "9a", "a-b", "", "a b", "##", "reg.1"]
+TAGS = ["#"] * 10 + ["BRAM", "DSP", "reg1", "_x", "a_9", "Z", "BRAM", "DSP",
+        # prefixes of each other, YAML-special words, words float() knows, the ground tag doubled
+        "reg", "reg1_0", "null", "true", "yes", "on", "n", "inf", "nan", "x", "e5", "__", "_1", "True"]
+LEGACY_TAGS = ["#", "#", "#", "BRAM", "DSP", "reg1", "_x", "a_9", "Z"]
+BAD_TAGS = ["_", "9a", "a-b", "", "a b", "##", "reg.1", "BRAM ", " BRAM", "#x", "_#", "1e5", "a:b", "x,y"]
 
 
 # --------------------------------------------------------------------------
@@ -81,6 +96,12 @@ def place_regions(rng, nx, ny, k, pattern):
             put(i, j, min(nx, i + rng.randrange(1, 3)), ny)
         else:
             put(i, 0, min(nx, i + rng.randrange(1, 3)), j)
+    if pattern == "many":
+        cells = [(i, j) for i in range(nx) for j in range(ny)]
+        rng.shuffle(cells)
+        for (i, j) in cells[:k]:
+            put(i, j, i + 1, j + 1)
+        return out
     tries = 0
     while len(out) < k and tries < 40:
         tries += 1
@@ -149,11 +170,22 @@ def lattice_stats(nx, ny, rects):
 
 
 def gen_case(rng, stream=None):
+    """A die case.  With an explicit `stream` (the callers in other property modules: C20 builds its dies from
+    these) the plain generator is used: dict / flat / bare-string forms, 0-8 regions, the short tag list - none of
+    the input forms, sizes, names, orders and histories that C01's own run adds."""
+    legacy = stream is not None
     if stream is None:
-        stream = rng.choices(["exact", "exact-eps", "decimal", "malformed"], [45, 15, 30, 10])[0]
+        stream = rng.choices(["exact", "exact-eps", "decimal", "malformed", "badstring", "sd"], [42, 13, 27, 11, 3, 4])[0]
+    if stream == "badstring":
+        return gen_badstring(rng)
+    if stream == "sd":
+        return gen_sd(rng)
     nx, ny = rng.choice([1, 2, 3, 3, 4, 4, 5, 5, 6]), rng.choice([1, 2, 3, 3, 4, 4, 5, 5, 6])
     pattern = rng.choices(["random", "ring", "tjunction", "full"], [12, 5, 4, 1])[0]
     k = rng.randrange(0, 9)
+    if not legacy and stream in ("exact", "decimal") and rng.random() < 0.025:
+        nx, ny, pattern = 7, 7, "many"                      # many one-cell regions: 9, 10, 15, 16, 17, 32, 33
+        k = rng.choice([9, 10, 15, 16, 17, 32, 33])
     if stream == "decimal":
         q = rng.choice([F(1, 10), F(1, 10), F(1, 100)])
         maxv = rng.choice([60, 600, 6000, 1000000 if q == F(1, 10) else 10000000])
@@ -167,12 +199,13 @@ def gen_case(rng, stream=None):
     stats = sorted(lattice_stats(nx, ny, rects))
     W, H = xs[-1], ys[-1]
     regions, fixed = [], []
+    allfixed = not legacy and rng.random() < 0.15          # every rectangle comes from the netlist, none from the description
     for (i0, j0, i1, j1) in rects:
         box = [xs[i0], ys[j0], xs[i1], ys[j1]]
-        if rng.random() < 0.2:
+        if allfixed or rng.random() < 0.2:
             fixed.append(box)
         else:
-            regions.append(box + [rng.choice(TAGS)])
+            regions.append(box + [rng.choice(LEGACY_TAGS if legacy else TAGS)])
     case = {"stream": stream, "W": W, "H": H, "form": "dict", "eps": None, "stats": stats, "defect": None}
     if stream == "exact-eps":
         eps = F(1, 1024)
@@ -197,6 +230,9 @@ def gen_case(rng, stream=None):
                 b1[s1] = line + sg * F(1, 512)
                 b2[s2] = line + sg * F(1, 1024)
                 case["stats"] = case["stats"] + ["centre-line"]
+    if not legacy and rng.random() < 0.5:
+        rng.shuffle(regions)                                 # the order in which regions are listed is arbitrary
+        rng.shuffle(fixed)
     tree_regions = [[(b[0] + b[2]) / 2, (b[1] + b[3]) / 2, b[2] - b[0], b[3] - b[1], b[4]] for b in regions]
     case["fixed"] = [[(b[0] + b[2]) / 2, (b[1] + b[3]) / 2, b[2] - b[0], b[3] - b[1]] for b in fixed]
     tree = {"width": W, "height": H}
@@ -205,11 +241,34 @@ def gen_case(rng, stream=None):
         if len(tree_regions) == 1 and rng.random() < 0.4:
             tree["regions"] = tree_regions[0]               # the flat single-rectangle form
             case["form"] = "single"
-    elif not fixed and rng.random() < 0.3 and stream in ("exact", "decimal"):
-        case["form"] = "string"                              # "<W>x<H>"
+    if not legacy and stream == "exact" and rng.random() < 0.15:
+        # modules that are NOT fixed but have rectangles (hard / soft): they must not appear in the die
+        i0, j0 = rng.randrange(nx), rng.randrange(ny)
+        b = [xs[i0], ys[j0], xs[min(nx, i0 + rng.randrange(1, 3))], ys[min(ny, j0 + rng.randrange(1, 3))]]
+        case["hard"] = [[(b[0] + b[2]) / 2, (b[1] + b[3]) / 2, b[2] - b[0], b[3] - b[1], rng.choice(["hard", "soft"])]]
     if stream == "malformed":
         inject_defect(rng, case, tree, xs, ys)
+    if legacy:
+        if "regions" not in tree and not case["fixed"] and rng.random() < 0.3 and stream in ("exact", "decimal"):
+            case["form"] = "string"                          # "<W>x<H>", plain repr spelling
+        case["tree"] = tree
+        return case
+    if rng.random() < 0.2:
+        keys = list(tree)
+        rng.shuffle(keys)                                    # regions before width, height first, ...
+        tree = {k: tree[k] for k in keys}
     case["tree"] = tree
+    choose_form(rng, case, tree)
+    if stream == "exact" and len(case["fixed"]) >= 2 and rng.random() < 0.4:
+        sizes, left = [], len(case["fixed"])
+        while left > 0:
+            g = min(left, rng.choice([1, 2, 2, 3]))
+            sizes.append(g)
+            left -= g
+        case["fixedgroups"] = sizes
+    # history: the same netlist object / the same description used before, in the same process
+    if rng.random() < 0.2:
+        case["warm"] = rng.choice(["twice", "twice", "no-netlist-first", "bare-first"])
     return case
 
 
@@ -221,10 +280,10 @@ def inject_defect(rng, case, tree, xs, ys):
         tree["regions"] = regs
         case["form"] = "dict"
     kinds = ["leave", "leave-neg", "unknown-key", "no-width", "bad-width", "empty-regions", "regions-not-list",
-             "fixed-leaves", "bad-entry"]
+             "fixed-leaves", "fixed-leaves", "fixed-fixed", "fixed-fixed", "bad-entry"]
     if regs:
-        kinds += ["overlap", "overlap", "neg-size", "zero-size", "bad-tag", "bad-tag", "arity", "not-number", "dup",
-                  "leave", "fixed-overlap"]
+        kinds += ["overlap", "overlap", "neg-size", "zero-size", "bad-tag", "bad-tag", "arity", "not-number", "dup", "dup",
+                  "dup-blockage", "dup-blockage", "leave", "fixed-overlap"]
     kind = rng.choice(kinds)
     case["defect"] = kind
     q = F(1, 8)
@@ -248,7 +307,14 @@ def inject_defect(rng, case, tree, xs, ys):
         new = [r[0] + dx, r[1] + dy, r[2], r[3], rng.choice(TAGS)]
         regs.insert(rng.randrange(len(regs) + 1), new)
     elif kind == "dup":
-        regs.append(list(rng.choice(regs)))
+        regs.insert(rng.randrange(len(regs) + 1), list(rng.choice(regs)))
+    elif kind == "dup-blockage":
+        # two coinciding rectangles, at least one of them a blockage (same centre and shape, any order, any distance in the list)
+        src = rng.choice([r for r in regs if r[4] == "#"] or regs)
+        new = list(src)
+        if src[4] != "#" or rng.random() < 0.3:
+            new[4] = "#" if src[4] != "#" else rng.choice(TAGS)
+        regs.insert(rng.randrange(len(regs) + 1), new)
     elif kind == "neg-size":
         r = rng.choice(regs)
         r[rng.choice([2, 3])] *= -1
@@ -282,6 +348,219 @@ def inject_defect(rng, case, tree, xs, ys):
     elif kind == "fixed-overlap":
         r = rng.choice(regs)
         case["fixed"].append([r[0], r[1], r[2], r[3]])
+    elif kind == "fixed-fixed":
+        w, h = min(W, rng.randrange(2, 9) * q), min(H, rng.randrange(2, 9) * q)
+        case["fixed"].append([w / 2, h / 2, w, h])
+        case["fixed"].append([w / 2 + rng.choice([F(0), w / 4]), h / 2, w, h] if w * 5 / 4 <= W else [w / 2, h / 2, w, h])
+
+
+# --------------------------------------------------------------------------
+# input forms: '<W>x<H>' strings, YAML text, files, streams
+# --------------------------------------------------------------------------
+FORMS = ["dict", "single", "string", "text", "file", "stream"]
+FNAMES = ["die.yaml", "example_die.yml", "d 1.yaml", "layout.txt", "x.yaml", "die-2x.yaml"]
+PLAIN_UNSAFE = {"null", "Null", "NULL", "true", "True", "TRUE", "false", "False", "FALSE", "y", "n", "yes", "no", "on", "off"}
+
+
+def dec_digits(x):
+    """exact decimal expansion of a non-negative rational that has a finite one: (integer digits, fractional digits)"""
+    assert x >= 0
+    k = 0
+    while (x.numerator * 10 ** k) % x.denominator:
+        k += 1
+        assert k < 60
+    m = x.numerator * 10 ** k // x.denominator
+    return str(m // 10 ** k), (str(m % 10 ** k).zfill(k) if k else "")
+
+
+def spell_number(rng, x, where):
+    """one of the spellings of the rational x that float() (where='string') / the YAML loader (where='yaml')
+    reads as exactly x (correctly rounded when x is not a binary64 number)"""
+    if x < 0:
+        return "-" + spell_number(rng, -x, where).lstrip("+")
+    kind = rng.choice(["plain", "plain", "plain", "exp", "exp", "short"])
+    e = 0
+    if kind == "exp":
+        e = rng.choice([-3, -2, -1, 0, 1, 1, 2, 3])
+    ip, fp = dec_digits(x / F(10) ** e)
+    if fp:
+        body = ip + "." + fp
+        if kind == "short" and ip == "0":
+            body = "." + fp                                   # .5
+    else:
+        body = ip + rng.choice(["", "", ".0", "."])
+    if kind != "exp" and len(ip) >= 2 and rng.random() < 0.12:
+        k = rng.randrange(1, len(ip))
+        body = body[:k] + "_" + body[k:]                       # 1_0 : '_' between two digits
+    if where == "string" and rng.random() < 0.06:
+        body = "0" * rng.choice([1, 1, 9, 17]) + body if body[0] != "." else body          # 010, 000000000010
+    if "." in body and rng.random() < 0.05:
+        body += "0" * rng.choice([1, 12, 16, 20, 40])          # 12.50000000000000000000 (more than 17 digits)
+    if kind == "exp":
+        body += rng.choice("eE") + (rng.choice(["", "+"]) if e >= 0 else "-") + str(abs(e))
+    if rng.random() < 0.15:
+        body = "+" + body
+    return body
+
+
+def render_string(case):
+    """the '<W>x<H>' string of a case in string form"""
+    tree = case["tree"]
+    if case.get("raw") is not None:
+        return case["raw"]
+    sp = case.get("spell")
+    if sp is None:                                             # cases recorded before the spellings existed
+        t = py_tree(tree)
+        return f"{t['width']!r}x{t['height']!r}"
+    rng = _random.Random(sp["seed"])
+    parts = []
+    for key in ("width", "height"):
+        b = spell_number(rng, tree[key], "string")
+        if rng.random() < 0.25:
+            b = rng.choice([" ", "  ", "\t", "\n", ""]) + b + rng.choice([" ", "\t ", "", "\n"])
+        parts.append(b)
+    return parts[0] + "x" + parts[1]
+
+
+def yaml_scalar(rng, v):
+    if isinstance(v, F):
+        return spell_number(rng, v, "yaml")
+    if isinstance(v, str):
+        if IDENT.match(v) and v not in PLAIN_UNSAFE and rng.random() < 0.5:
+            return v
+        return rng.choice(["'%s'", '"%s"']) % v
+    if v is None:
+        return rng.choice(["~", "null"])
+    if isinstance(v, list):
+        return "[" + ", ".join(yaml_scalar(rng, u) for u in v) + "]"
+    raise TypeError(type(v))
+
+
+def render_text(case):
+    """the YAML text of a case in text / file / stream form (deterministic in case['render'])"""
+    rd = case["render"]
+    rng = _random.Random(rd["seed"])
+    tree = case["tree"]
+    if rd["style"] == "flow":
+        txt = "{" + ", ".join(f"{k}: {yaml_scalar(rng, v)}" for k, v in tree.items()) + "}" + rng.choice(["", "\n"])
+    else:
+        lines = []
+        if rng.random() < 0.2:
+            lines.append("# die description")
+        if rng.random() < 0.03:
+            lines.append("# " + "-" * rng.choice([4094, 4096, 5000]))      # the text is longer than 4096 characters
+        if rng.random() < 0.15:
+            lines.append("---")
+        for k, v in tree.items():
+            nested = (k == "regions" and isinstance(v, list) and v and all(isinstance(u, list) and u for u in v))
+            if rd["style"] == "nextline" and not (nested and isinstance(v, list)):
+                lines.append(f"{k}:")                           # no ': ' anywhere: the text is recognised by its line breaks
+                lines.append(f"  {yaml_scalar(rng, v)}")
+                continue
+            if nested and rd["style"] in ("seq", "nested", "nextline"):
+                ind = rng.choice(["", "  "])
+                lines.append(f"{k}:")
+                for u in v:
+                    if rd["style"] in ("seq", "nextline") or not all(not isinstance(z, list) for z in u):
+                        lines.append(f"{ind}- {yaml_scalar(rng, u)}")
+                    else:
+                        for n, z in enumerate(u):
+                            lines.append(f"{ind}{'- ' if n == 0 else '  '}- {yaml_scalar(rng, z)}")
+            else:
+                lines.append(f"{k}: {yaml_scalar(rng, v)}" + ("   # " + k if rng.random() < 0.1 else ""))
+            if rng.random() < 0.08:
+                lines.append("")
+        txt = "\n".join(lines) + "\n"
+    td = case.get("textdefect")
+    if td == "unbalanced":
+        txt = txt.rstrip("\n") + "\nregions2: [[1, 2\n" if rd["style"] != "flow" else txt.rstrip("\n")[:-1]
+    elif td == "dupkey":
+        txt = "{width: 7, height: 7, width: 7}\n" if rd["style"] == "flow" else txt + f"{next(iter(tree))}: 1\n"
+    elif td == "nondict":
+        txt = "- width: 10\n- height: 9\n"
+    return txt
+
+
+def choose_form(rng, case, tree):
+    """how the description is handed to Die(...)"""
+    shape_only = (set(tree) == {"width", "height"} and all(isinstance(tree[k], F) and tree[k] > 0 for k in tree))
+    if shape_only and rng.random() < 0.55:
+        case["form"] = "string"
+        case["spell"] = {"seed": rng.randrange(10 ** 6)}
+        if rng.random() < 0.05:
+            case["shadowfile"] = "width: 3\nheight: 3\n"      # a file of that very name exists: the string form wins
+        return
+    x = rng.random()
+    if x < 0.55:
+        return                                                # dict / single, as chosen before
+    if case["form"] == "single":
+        case["form"] = "dict"
+    case["render"] = {"seed": rng.randrange(10 ** 6), "style": rng.choice(["block", "seq", "nested", "flow", "nextline"])}
+    if x < 0.78:
+        case["form"] = "text"
+    elif x < 0.9:
+        case["form"] = "file"
+        case["fname"] = rng.choice(FNAMES)
+    else:
+        case["form"] = "stream"
+        case["handle"] = rng.choice(["file", "stringio"])
+    if case["stream"] == "malformed" and rng.random() < 0.25:
+        case["textdefect"] = rng.choice(["unbalanced", "dupkey", "nondict"] + (["missing-file"] if case["form"] == "file" else []))
+        case["defect"] = "text-" + case["textdefect"]
+
+
+BAD_PARTS = ["", "1__0", "_10", "10_", "1e", "e5", "1.2.3", "+-1", "+ 1", "abc", "0b11", "1,5", "1 0", "1e_1", "1._5", ".", "--1", "1e1.5"]
+NONPOS_PARTS = ["0", "-3", "0.0", "-0", "nan", "-inf", "-1e-3", "+0e5", "NaN"]
+
+
+def gen_badstring(rng):
+    """a str that is NOT a die: '<W>x<H>' broken in one place (the harness knows which)"""
+    W, H = F(rng.randrange(1, 200), 4), F(rng.randrange(1, 200), 4)
+    a, b = spell_number(rng, W, "string"), spell_number(rng, H, "string")
+    kind = rng.choice(["sep", "sep", "part", "part", "part", "nonpos", "nonpos", "inf"])
+    if kind == "sep":
+        raw = rng.choice([a + "X" + b, a + "*" + b, a + " by " + b, a + "xx" + b, a + "x" + b + "x8", a + b, "x", a + "x",
+                          a + "\nby " + b, a + "x\n" + b + "x", a + "X" + b + "\n"])
+    elif kind == "part":
+        bad = rng.choice(BAD_PARTS)
+        raw = bad + "x" + b if rng.random() < 0.5 else a + "x" + bad
+    elif kind == "nonpos":
+        bad = rng.choice(NONPOS_PARTS)
+        raw = bad + "x" + b if rng.random() < 0.5 else a + "x" + bad
+    else:
+        bad = rng.choice(["inf", "Infinity", "+INF", "iNf"])
+        raw = bad + "x" + b if rng.random() < 0.5 else a + "x" + bad
+    fixed = []
+    if rng.random() < 0.3:
+        fixed = [[W / 2, H / 2, W / 2, H / 2]]
+    return {"stream": "badstring", "W": W, "H": H, "form": "string", "eps": None, "stats": [], "defect": "string-" + kind,
+            "tree": {}, "fixed": fixed, "raw": raw}
+
+
+SD_ALPHABET = "0123456789" * 3 + "..__++--eeEExxx  \t" + "infaINFnyX:,"
+
+
+def gen_sd(rng):
+    """a direct call of yaml_parse_die.string_die on a random short string (or on a mutated number pair);
+    exponents of three and more digits (beyond the binary64 range: 1E934 is inf, 1E-934 is 0.0) are not generated"""
+    while True:
+        case = gen_sd_(rng)
+        if not re.search(r"[eE][+-]?[0-9_]{3,}", case["raw"]):
+            return case
+
+
+def gen_sd_(rng):
+    if rng.random() < 0.5:
+        raw = "".join(rng.choice(SD_ALPHABET) for _ in range(rng.randrange(0, 9)))
+    else:
+        a = spell_number(rng, F(rng.randrange(0, 4000), rng.choice([1, 2, 4, 8, 10, 100])), "string")
+        b = spell_number(rng, F(rng.randrange(0, 4000), rng.choice([1, 2, 4, 8, 10, 100])), "string")
+        raw = a + "x" + b
+        for _ in range(rng.randrange(0, 3)):
+            k = rng.randrange(len(raw) + 1)
+            raw = raw[:k] + rng.choice(SD_ALPHABET) + raw[k + rng.randrange(0, 2):]
+    return {"stream": "sd", "form": "string", "raw": raw, "tree": {}, "fixed": [], "stats": [], "defect": None, "eps": None,
+            "W": F(1), "H": F(1)}
 
 
 # --------------------------------------------------------------------------
@@ -324,29 +603,108 @@ def classify_assert(e):
         return "RArea"
     if "_check_rectangles" in frames:
         return None
+    if frames and frames[-1] == "read_yaml":
+        return "stream-type"                                 # isinstance(stream, TextIO) refused the stream object
     if "parse_yaml_die" in frames or "string_die" in frames:
         return "RParse"
     return None
 
 
+def build_netlist(case):
+    from frame.netlist.netlist import Netlist
+    if not case["fixed"] and not case.get("hard"):
+        return None
+    groups, rest = [], list(case["fixed"])
+    for g in case.get("fixedgroups") or []:                  # fixed modules with several rectangles
+        groups.append(rest[:g])
+        rest = rest[g:]
+    groups += [[r] for r in rest]
+    mods = {f"M{i}": {"fixed": True, "rectangles": [py_value(r) for r in g]} for i, g in enumerate(groups) if g}
+    for i, r in enumerate(case.get("hard") or []):
+        mods[f"H{i}"] = ({"hard": True, "rectangles": [py_value(r[:4])]} if r[4] == "hard"
+                         else {"area": float(r[2] * r[3]), "rectangles": [py_value(r[:4])]})
+    mods["S"] = {"area": 1}
+    return Netlist({"Modules": mods, "Nets": []})
+
+
+def input_text(case):
+    """the text / string of the case, as handed to Die (None for dict forms)"""
+    form = case["form"]
+    if form == "string":
+        return render_string(case)
+    if form in ("text", "file", "stream"):
+        return render_text(case)
+    return None
+
+
+def run_sd(case):
+    from frame.die.yaml_parse_die import string_die
+    try:
+        sh = string_die(case["raw"])
+    except AssertionError:
+        return {"sd": 1}
+    if sh is None:
+        return {"sd": 0}
+    if sh.w in (float("inf"),) or sh.h in (float("inf"),):
+        return {"sd": 2}
+    return {"sd": 3, "w": sh.w, "h": sh.h}
+
+
 def run_impl(case):
     from frame.geometry.geometry import Rectangle
     from frame.die.die import Die
-    from frame.netlist.netlist import Netlist
     Rectangle.undefine_epsilon()
+    if case["stream"] == "sd":
+        return run_sd(case)
+    cwd = os.getcwd()
+    tmp = None
+    handles = []
     try:
         if case.get("eps") is not None:
             Rectangle.set_epsilon(float(case["eps"]))
-        netlist = None
-        if case["fixed"]:
-            mods = {f"M{i}": {"fixed": True, "rectangles": [py_value(r)]} for i, r in enumerate(case["fixed"])}
-            mods["S"] = {"area": 1}
-            netlist = Netlist({"Modules": mods, "Nets": []})
+        netlist = build_netlist(case)
         tree = py_tree(case["tree"])
-        if case["form"] == "string":
-            stream = f"{tree['width']!r}x{tree['height']!r}"
-        else:
-            stream = tree
+        form = case["form"]
+        txt = input_text(case)
+        if form not in ("dict", "single"):
+            # strings that are neither '<W>x<H>' nor YAML text are opened as files: run in an empty directory
+            tmp = tempfile.mkdtemp(prefix="verif-c01-")
+            os.chdir(tmp)
+        def make_stream():
+            if form == "string":
+                if case.get("shadowfile"):
+                    with open(txt, "w") as f:
+                        f.write(case["shadowfile"])
+                return txt
+            if form == "text":
+                return txt
+            if form == "file":
+                if case.get("textdefect") != "missing-file":
+                    with open(case["fname"], "w") as f:
+                        f.write(txt)
+                return case["fname"]
+            if form == "stream":
+                if case["handle"] == "file":
+                    with open("stream.yaml", "w") as f:
+                        f.write(txt)
+                    handles.append(open("stream.yaml"))
+                    return handles[-1]
+                return io.StringIO(txt)
+            return py_tree(case["tree"])
+
+        # history: earlier constructions in the same process (same netlist object, same description); what the
+        # judged construction reports must not depend on them
+        warm = case.get("warm")
+        try:
+            if warm == "twice":
+                Die(make_stream(), netlist) if netlist is not None else Die(make_stream())
+            elif warm == "no-netlist-first":
+                Die(make_stream())
+            elif warm == "bare-first" and isinstance(tree.get("width"), (int, float)) and isinstance(tree.get("height"), (int, float)):
+                Die({"width": tree["width"], "height": tree["height"]}, netlist)
+        except Exception:
+            pass
+        stream = make_stream()
         obs = {}
         w, h = tree.get("width"), tree.get("height")
         try:
@@ -358,9 +716,19 @@ def run_impl(case):
             obs["fixed"] = [fr.rect_obs(r) for r in die.fixed_regions]
             obs["x"] = list(getattr(die, "_x", []))
             obs["y"] = list(getattr(die, "_y", []))
+            obs["WH"] = [die.width, die.height]
         except AssertionError as e:
             obs["v"] = "reject"
             obs["cls"] = classify_assert(e)
+            obs["msg"] = str(e)[:200]
+        except Exception as e:
+            if form in ("dict", "single"):
+                raise
+            # a str / stream that cannot be read: OSError, the YAML loader's errors
+            frames = [f.name for f in traceback.extract_tb(e.__traceback__)]
+            obs["v"] = "raise"
+            obs["exc"] = type(e).__name__
+            obs["in_reader"] = "read_yaml" in frames
             obs["msg"] = str(e)[:200]
         obs["fixed_in"] = [fr.rect_obs(r) for r in netlist.fixed_rectangles()] if netlist is not None else []
         obs["eps"] = Rectangle.distance_epsilon() if Rectangle.epsilon_defined() else 0.0
@@ -370,6 +738,12 @@ def run_impl(case):
         obs["tin"] = max(w, h) * 10e-12 if ok else 0.0
         return obs
     finally:
+        for hd in handles:
+            hd.close()
+        os.chdir(cwd)
+        if tmp is not None:
+            import shutil
+            shutil.rmtree(tmp, ignore_errors=True)
         Rectangle.undefine_epsilon()
 
 
@@ -386,19 +760,73 @@ def gtree(x):
     return "YOther"
 
 
+def gtext(s):
+    """a Gallina string that may contain new lines and tabs"""
+    assert all(32 <= ord(c) < 127 or c in "\n\t" for c in s), s
+    parts = re.split(r"([\n\t])", s)
+    out = []
+    for t in parts:
+        if t == "\n":
+            out.append("nl")
+        elif t == "\t":
+            out.append("tab")
+        elif t:
+            out.append('"' + t.replace('"', '""') + '"')
+    if not out:
+        return '""%string'
+    return "(" + " ++ ".join(out) + ")%string"
+
+
+def gentries(tree):
+    return glist([f"({gstr(k)}, {gtree(v)})" for k, v in tree.items()])
+
+
+def model_input(case):
+    """(the die_input term, the files, the loader's table) of a case"""
+    tree, _ = impl_numbers(case)
+    form = case["form"]
+    if form in ("dict", "single"):
+        return f"(InMap {gentries(tree)})", "[]", "[]"
+    txt = input_text(case)
+    if form == "string":
+        files = "[]"
+        loads = "[]"
+        if case.get("shadowfile"):
+            files = f"[({gtext(txt)}, {gtext(case['shadowfile'])})]"
+            loads = f"[({gtext(case['shadowfile'])}, LMap [(\"width\"%string, YNum (qc 3 1)); (\"height\"%string, YNum (qc 3 1))])]"
+        return f"(InStr {gtext(txt)})", files, loads
+    td = case.get("textdefect")
+    load = "LErr" if td in ("unbalanced", "dupkey") else "LOther" if td == "nondict" else f"(LMap {gentries(tree)})"
+    loads = f"[({gtext(txt)}, {load})]"
+    if form == "text":
+        return f"(InStr {gtext(txt)})", "[]", loads
+    if form == "file":
+        files = "[]" if td == "missing-file" else f"[({gtext(case['fname'])}, {gtext(txt)})]"
+        return f"(InStr {gtext(case['fname'])})", files, loads
+    return f"(InStream {gtext(txt)})", "[]", loads
+
+
 def to_coq(case, obs):
+    if case["stream"] == "sd":
+        w, h = (gq(obs["w"]), gq(obs["h"])) if obs["sd"] == 3 else ("0", "0")
+        return f"sd_agrees {gtext(case['raw'])} {obs['sd']} {w} {h}"
     if case["stream"] == "decimal":
         return "true"                     # oracle only: the theorems speak about exact arithmetic
-    tree, _ = impl_numbers(case)
-    entries = glist([f"({gstr(k)}, {gtree(v)})" for k, v in tree.items()])
+    inp, files, loads = model_input(case)
     fx = glist([fr.grect(d) for d in obs["fixed_in"]])
-    d = f"(mkDesc {entries} {fx})"
     pars = f"{gq(obs['eps'])} {gq(obs['aeps'])} {gq(obs['deps'])} {gq(obs['tin'])}"
+    world = f"{files} {loads}"
+    if obs["v"] == "raise":
+        return f"agree_raise_in {world} {pars} {inp} {fx}"
     if obs["v"] == "reject":
-        cls = "None" if obs["cls"] is None else f"(Some {obs['cls']})"
-        return f"agree_reject {pars} {d} {cls}"
+        if obs["cls"] == "stream-type":
+            # the unrepaired read_yaml refuses the stream object before reading it: nothing to compare
+            # (the direct oracle reports the valid descriptions refused this way: C01/valid-rejected-stream)
+            return "true"
+        # which assertion fired (obs['cls']) is kept for diagnosis only: the property says "rejected"
+        return f"agree_reject_in {world} {pars} {inp} {fx} None"
     L = lambda k: glist([fr.grect(r) for r in obs[k]])
-    return f"agree_accept {pars} {d} {L('ground')} {L('spec')} {L('block')} {L('fixed')}"
+    return f"agree_accept_in {world} {pars} {inp} {fx} {L('ground')} {L('spec')} {L('block')} {L('fixed')}"
 
 
 # --------------------------------------------------------------------------
@@ -449,10 +877,14 @@ def ovl(a, b):
 
 
 def oracle(case, obs):
+    if case["stream"] == "sd":
+        return None                       # string_die alone: correspondence only
     tree = case["tree"]
     dec = case["stream"] == "decimal"
-    if not well_formed(tree):
-        return None if obs["v"] == "reject" else "a malformed description was accepted"
+    if not well_formed(tree) or case.get("textdefect") or case.get("raw") is not None:
+        return None if obs["v"] in ("reject", "raise") else "a malformed description was accepted"
+    if obs["v"] == "raise":
+        obs = dict(obs, v="reject", msg=f"raised {obs['exc']}: {obs['msg']}")
     W, H = tree["width"], tree["height"]
     rl = tree.get("regions", [])
     if rl and isnum(rl[0]):
@@ -482,6 +914,8 @@ def oracle(case, obs):
             note = ""
             if obs.get("cls") == "ROverlap" and 0 < obs["eps"] < obs["deps"] / 2:
                 note = " [netlist-eps: the class-wide epsilon was defined by the netlist, smaller than the die's own]"
+            if obs.get("cls") == "stream-type" and case["form"] == "stream":
+                note = " [stream-handle: read_yaml refuses every open stream (isinstance(stream, typing.TextIO))]"
             return f"a valid description was rejected: {obs.get('msg', '')[:120]}{note}"
         return None
     # accepted: every input region reported unchanged with its tag, in its list
@@ -525,6 +959,8 @@ def failure_key(case, why):
     why = why or ""
     if "valid description was rejected" in why and "[netlist-eps" in why:
         return "C01/valid-rejected-netlist-epsilon"
+    if "valid description was rejected" in why and "[stream-handle" in why:
+        return "C01/valid-rejected-stream"
     if "valid description was rejected" in why:
         return "C01/valid-rejected-" + ("decimal" if s == "decimal" else "exact") + ("-area" if "total area" in why else "")
     if "malformed" in why:
@@ -551,15 +987,22 @@ def shrink(case):
                 t["regions"] = rest
             else:
                 t.pop("regions")
-            yield dict(case, tree=t, form="dict")
+            yield dict(case, tree=t, form="dict" if case["form"] == "single" else case["form"])
     for i in range(len(case["fixed"])):
-        yield dict(case, fixed=case["fixed"][:i] + case["fixed"][i + 1:])
+        yield dict(case, fixed=case["fixed"][:i] + case["fixed"][i + 1:], fixedgroups=None)
+    if case.get("warm"):
+        yield dict(case, warm=None)
+    if case.get("hard"):
+        yield dict(case, hard=[])
+    if case["form"] in ("text", "file", "stream") and not case.get("textdefect") and case["render"]["style"] != "block":
+        yield dict(case, render=dict(case["render"], style="block"))
 
 
 def nontrivial(case):
     regs = case["tree"].get("regions") if isinstance(case.get("tree"), dict) else None
     n = (len(regs) if isinstance(regs, list) and regs and isinstance(regs[0], list) else (1 if regs else 0))
-    return n + len(case["fixed"]) >= 2 or case["stream"] == "malformed"
+    return n + len(case["fixed"]) >= 2 or case["stream"] in ("malformed", "badstring") or \
+        (case["stream"] == "sd" and "x" in case["raw"])
 
 
 def run_oracle_only(ctx, out):
@@ -577,12 +1020,17 @@ def run_oracle_only(ctx, out):
 
 
 def run(ctx, out, replay=None):
-    n = 5000 if ctx.quick() else 30000
-    out.rule = ("dies with 0-8 lattice-aligned regions (blockages, identifiers, fixed rectangles through a generated netlist) "
-                "on a coarse nx x ny lattice (1..6 each, narrow columns for near-misses; patterns random / pinwheel ring with "
-                "enclosed hole / T-junction / fully covered); streams exact (dyadic), exact-eps (explicit epsilon 2^-10, sides "
-                "perturbed by 2^-11..2^-9), decimal (multiples of 0.1 / 0.01, die up to 1e5; direct oracle only), malformed (one "
-                "defect injected); non-trivial = at least two regions or a malformed description; distinct by canonical hash")
+    n = 3500 if ctx.quick() else 24000
+    out.rule = ("dies with 0-8 lattice-aligned regions (blockages, identifiers incl. YAML-special words and prefixes of each other, fixed "
+                "rectangles through a generated netlist - one or several per fixed module, sometimes ALL rectangles, next to hard / soft "
+                "modules that must not appear) on a coarse nx x ny lattice (1..6 each, narrow columns for near-misses; patterns random / "
+                "pinwheel ring with enclosed hole / T-junction / fully covered / 9..33 one-cell regions); regions and keys in any order; "
+                "streams exact (dyadic), exact-eps (explicit epsilon 2^-10, sides perturbed by 2^-11..2^-9), decimal (multiples of 0.1 / "
+                "0.01, die up to 1e5; direct oracle only), malformed (one defect injected: description, netlist rectangles, or the text "
+                "itself), badstring ('<W>x<H>' broken in one place), sd (string_die called on random strings); input forms dict / flat "
+                "single region / '<W>x<H>' string (all float() spellings) / YAML text (4 layouts, number spellings, comments, > 4096 "
+                "characters) / file name / open stream, each with and without netlist; a fifth of the cases after earlier constructions "
+                "in the same process; non-trivial = at least two regions or a refused input; distinct by canonical hash")
     cases = []
     if replay and "case" in replay:
         cases.append(fr.unjson(replay["case"]))
@@ -596,5 +1044,7 @@ def run(ctx, out, replay=None):
             out.count("defect:" + c["defect"])
     fr.run_cases(ctx, out, cases, run_impl, to_coq, oracle, failure_key, HEADER,
                  dist_key=lambda c: "stream:" + c["stream"], nontrivial=nontrivial, shard=60, shrink=shrink)
+    for c in cases:
+        out.count("form:" + c.get("form", "dict") + ("+netlist" if c.get("fixed") else ""))
     ev = out.extra
     ev["share_of_cases"] = {k: round(v / max(1, out.evaluations), 3) for k, v in sorted(out.dist.items())}
